@@ -32,6 +32,7 @@ type Ctx struct {
 	Dir      string // scratch directory for warrior files
 	stop     bool
 	unit     int
+	hangs    int
 }
 
 func (c *Ctx) expired() bool {
@@ -183,7 +184,11 @@ func (c *Ctx) files(k *Case) []string {
 		name := fmt.Sprintf("w%d_%v.red", wi, legacy)
 		p := filepath.Join(c.Dir, name)
 		if _, err := os.Stat(p); err != nil {
-			os.WriteFile(p, []byte(ws[wi].Source(legacy)), 0o644)
+			src := ws[wi].Source(legacy)
+			if wi%2 == 1 {
+				src = strings.TrimSuffix(src, "\n") // every other file ends without a newline
+			}
+			os.WriteFile(p, []byte(src), 0o644)
 		}
 		out = append(out, p)
 	}
@@ -245,9 +250,15 @@ func (c *Ctx) Check(k *Case) {
 	var err error
 	select {
 	case err = <-done:
-	case <-time.After(120 * time.Second):
+	case <-time.After(40 * time.Second):
 		cmd.Process.Kill()
-		fail("does-not-exit", "gmars "+strings.Join(args, " ")+" did not exit within 120 s")
+		fail("does-not-exit", "gmars "+strings.Join(args, " ")+" did not exit within 40 s (the longest run of the grid takes about a second)")
+		c.hangs++
+		if c.hangs >= 2 {
+			c.stop = true
+			rep.Exhaustive = false
+			rep.Note("two runs of the command did not exit; the worker stopped its enumeration there")
+		}
 		return
 	}
 	rep.Transitions++
@@ -406,7 +417,13 @@ func (c *Ctx) Run(tier string) {
 			}
 		}
 	}
-	rep.Bound += "; one-warrior runs"
+	// a cycle limit beyond 16 bits given on the command line (imp against imp runs to the limit: a tie)
+	if c.Sh.I == 0 {
+		c.Check(&Case{W1: 0, W2: 0, Size: 13, Procs: 2, Cycles: 70000, Len: 4, Fixed: 6, Rounds: 1, Note: "-c 70000"})
+		c.Check(&Case{W1: 0, W2: 9, Size: 13, Procs: 300, Cycles: 66000, Len: 4, Fixed: 6, Rounds: 2, Note: "-c 66000 -p 300"})
+		c.Check(&Case{W1: 2, W2: 9, Size: 100003, Procs: 70000, Cycles: 150000, Len: 4, Fixed: 50000, Rounds: 1, Note: "-s 100003 -p 70000 -c 150000"})
+	}
+	rep.Bound += "; one-warrior runs; -c 70000, -c 66000 -p 300, and -s 100003 -p 70000 -c 150000 (values beyond 16 bits)"
 	// presets
 	names := []string{"88", "icws", "nop94", "noptiny", "nop256", "nopnano"}
 	// imp vs imp runs to the preset's cycle limit (a tie); the ring fills the preset's process limit
